@@ -1341,7 +1341,7 @@ def explore(ctx, n_scale=1.0, monitors_only=False):
                 break
     # a section with many scopes
     if not violations and not disagreements:
-        for n_sc in ((64,) if quick else (51, 64, 130, 300)):
+        for n_sc in ((64,) if quick else (51, 64, 100)):      # the model is cubic in the number of scopes: 100 takes 10 s per display
             seq = wide_sequence(rng_st, n_sc)
             by_shape["wide"] = by_shape.get("wide", 0) + 1
             for kind in KINDS:
